@@ -351,7 +351,8 @@ def extra_events(prop, seed, tier):
                     ev.append(["BuildFailed", f"x{k}{dn}", ["hand-written", what], [dn, True], [type(e).__name__, str(e)[:160]]])
         # hand-written values of types outside the term grammar (Flag enums, unpacked fixed tuples)
         from mashumaro.codecs.basic import BasicEncoder
-        for name, ann, values in (("WithFlags", subj_mod.WithFlags, subj_mod.FLAG_VALUES), ("WithUnpackedFixed", subj_mod.WithUnpackedFixed, subj_mod.UNPACKED_VALUES)):
+        for name, ann, values in [("WithFlags", subj_mod.WithFlags, subj_mod.FLAG_VALUES), ("WithUnpackedFixed", subj_mod.WithUnpackedFixed, subj_mod.UNPACKED_VALUES)] \
+                + list(subj_mod.SIBLING_SUBJECTS):
             for ci, (dn, ar) in enumerate(COMBOS):
                 try:
                     root, sd, defs, prefix, schema = build_root(ann, dn, ar)
